@@ -8,13 +8,14 @@ d=seeded/$name
 [ -f $d/patch.diff ] || { echo "no $d/patch.diff"; exit 2; }
 ids="$@"
 [ -z "$ids" ] && ids=${name%%-*}
-wt=/root/scratch/seed_$name
+wt=/root/scratch/seed_${name}${OUT:+_x}
 git -C /repo worktree remove --force $wt >/dev/null 2>&1
 git -C /repo worktree add --detach $wt HEAD >/dev/null 2>&1 || exit 2
 git -C $wt apply $PWD/$d/patch.diff || { echo "patch does not apply"; git -C /repo worktree remove --force $wt; exit 2; }
-: > $d/result.txt
+res=$d/${OUT:-result.txt}
+: > $res
 for id in $ids; do
   out=$(OUTRANK_REPO=$wt ./check $id --tier ${TIER:-quick} 2>&1 | grep -E "^(VIOLATION|KNOWN-FINDING|C[0-9]+ tier)" )
-  echo "$out" | tee -a $d/result.txt
+  echo "$out" | tee -a $res
 done
 git -C /repo worktree remove --force $wt
